@@ -5,6 +5,7 @@ cd "$(dirname "$0")/.."
 out=seeded/RESULTS.txt; : > $out
 for d in seeded/*/; do
   sid=$(basename $d); pid=$(python3 -c "import json; print(json.load(open('$d/meta.json'))['property'])")
+  if grep -q '"retired"' $d/meta.json; then echo "$sid ($pid): retired (no longer applies to HEAD as a valid seed, see meta.json)" | tee -a $out; continue; fi
   bin/seed_check.sh $d/patch.diff $pid > /tmp/seedsall_$sid.log 2>&1
   if grep -q "rc=1 " /tmp/seedsall_$sid.log && grep -q "^VIOLATION" /tmp/seedsall_$sid.log; then res="detected"; else res="MISSED"; fi
   echo "$sid ($pid): $res :: $(head -1 /tmp/seedsall_$sid.log)" | tee -a $out
